@@ -88,3 +88,31 @@ def show(e, limit=160):
     if len(s) > limit:
         s = s[:limit - 12] + '...(%d ch)' % len(s)
     return s
+
+
+def first_diff(a, b, path=''):
+    """Path and the two differing leaves of two encoded values (for messages)."""
+    if a == b:
+        return None
+    if a[0] != b[0] or a[0] not in ('L', 'T', 'D'):
+        return path or '.', show(a, 80), show(b, 80)
+    xa, xb = a[1], b[1]
+    if len(xa) != len(xb):
+        return (path or '.') + '(len %d vs %d)' % (len(xa), len(xb)), show(a, 80), show(b, 80)
+    for i, (p, q) in enumerate(zip(xa, xb)):
+        if p != q:
+            if a[0] == 'D':
+                return first_diff(p[1], q[1], path + '[%s]' % show(p[0], 30)) if p[0] == q[0] else (path + '{key %d}' % i, show(p[0]), show(q[0]))
+            return first_diff(p, q, path + '[%d]' % i)
+    return path or '.', show(a, 80), show(b, 80)
+
+
+def diff_text(expected, observed):
+    """expected/observed are outcomes ['ok', enc] | ['exc', name] | [...]."""
+    if expected[0] == 'ok' and observed[0] == 'ok':
+        d = first_diff(expected[1], observed[1])
+        if d:
+            return 'expected %s at %s, observed %s' % (d[1], d[0], d[2])
+    e = show(expected[1], 100) if expected[0] == 'ok' else 'raises ' + str(expected[1])
+    o = show(observed[1], 100) if observed[0] == 'ok' else ('raises ' + str(observed[1]) if observed[0] == 'exc' else str(observed))
+    return 'expected %s, observed %s' % (e, o)
